@@ -1,25 +1,49 @@
-// C17 harness: a session of plugin-chain operations and scripted tests run through a real TestRegistry.
-// Scenario (see checks/C17.py):  ops  :inst <name> <kind 0 plain|1 setptr> | :en <id> | :dis <id> | :rm <name> | :reset
-//                                     | :test <n> stmt*n <n> stmt*n <n> stmt*n          (setup, body, teardown)
-//                                stmt :set <loc> <val> | :wr <loc> <val> | :fail | :failc | :thr | :thrstd
-// Observation: per :test  ":t <failed> <npre> ids.. <npost> ids.. <pool[0..39]>", per :rm/:reset  ":c <n> ids.."
+// C17 harness: a session of plugin-chain operations and scripted tests run through a real TestRegistry, by single
+// tests, by whole runs (TestRegistry::runAllTests over several tests whose statements and whose plugins' pre / post
+// actions install, remove, enable and disable plugins while the run is going on) and by the real command line runner
+// (CommandLineTestRunner::runAllTestsMain on top of whatever the registry already holds).
+// Scenario (see checks/C17.py):
+//   op    :inst <name> <kind 0 plain|1 setptr> | :act <name> <post 0|1> <n> act*n | :en <id> | :dis <id> | :rm <name> | :reset
+//         | :test xtest | :run <k> xtest*k | :runner <rep> <k> xtest*k
+//   xtest <n> xstmt*n <n> xstmt*n <n> xstmt*n          (setup, body, teardown)
+//   xstmt :set <loc> <val> | :wr <loc> <val> | :fail | :failc | :thr | :thrstd | act
+//   act   :ai <name> <kind> | :ar <name> | :ae <id> | :ad <id> | :az
+// Plugin ids are creation ordinals (the runner's own pointer plugin takes one too); name a0 is DEF_PLUGIN_SET_POINTER.
+// Observation: per test  ":t <failed> <npre> ids.. <npost> ids.. <pool[0..39]>"  where the id lists leave out the plugins
+// an action of that very test named (whether those were installed / enabled "for that test" the property does not say);
+// per :rm/:reset and after every :run / :runner  ":c <n> ids.."  (after :runner: the plugins not named a0).
 #include <stdexcept>
 #include <map>
+#include <set>
 #include "hlib.h"
 #include "CppUTest/TestHarness.h"
 #include "CppUTest/TestRegistry.h"
 #include "CppUTest/TestOutput.h"
 #include "CppUTest/TestPlugin.h"
 #include "CppUTest/TestResult.h"
+#include "CppUTest/CommandLineTestRunner.h"
 using namespace hl;
 
 enum { POOL = 40 };
 static void* pool[POOL];
+static const unsigned long long RUNNER_NAME = 0xa0;
 
 // event log: (kind, id)  kind 0 = pre action, 1 = post action, 2 = test object created, 3 = test object destroyed
 struct Ev { int kind; int id; };
-static Ev gLog[4096]; static int gLogN;
-static void logEv(int kind, int id) { if (gLogN < 4096) { gLog[gLogN].kind = kind; gLog[gLogN].id = id; gLogN++; } }
+static Ev gLog[8192]; static int gLogN;
+static void logEv(int kind, int id) { if (gLogN < 8192) { gLog[gLogN].kind = kind; gLog[gLogN].id = id; gLogN++; } }
+
+// ------------------------------------------------------------------ the session's registry and plugin objects
+struct Act { int kind; unsigned long long name; int arg; };        // 0 install (arg = plugin kind) 1 remove 2 enable 3 disable 4 reset (arg = id)
+static TestRegistry* gReg;
+static std::vector<TestPlugin*> gObjs;                             // by id; 0 for the runner's plugin while it is not known / not alive
+static std::vector<unsigned long long> gNames;                     // by id
+static std::map<TestPlugin*, int> gIds;
+static std::set<int> gNamed;                                       // ids the actions of the current test named
+static std::vector<std::string> gItems;                            // observation items of the tests of the current run
+
+static std::string pname(unsigned long long n) { return n == RUNNER_NAME ? std::string(DEF_PLUGIN_SET_POINTER) : "p" + hx(n); }
+static void doAct(const Act& a);
 
 class RecPlugin : public TestPlugin
 {
@@ -37,15 +61,66 @@ public:
     void preTestAction(UtestShell& t, TestResult& r) CPPUTEST_OVERRIDE { logEv(0, id_); SetPointerPlugin::preTestAction(t, r); }
     void postTestAction(UtestShell& t, TestResult& r) CPPUTEST_OVERRIDE { logEv(1, id_); SetPointerPlugin::postTestAction(t, r); }
 };
+class ActorPlugin : public TestPlugin
+{
+public:
+    int id_; bool post_; std::vector<Act> acts_;
+    ActorPlugin(const SimpleString& name, int id, bool post, const std::vector<Act>& acts) : TestPlugin(name), id_(id), post_(post), acts_(acts) {}
+    void preTestAction(UtestShell&, TestResult&) CPPUTEST_OVERRIDE { logEv(0, id_); if (!post_) for (size_t i = 0; i < acts_.size(); i++) doAct(acts_[i]); }
+    void postTestAction(UtestShell&, TestResult&) CPPUTEST_OVERRIDE { logEv(1, id_); if (post_) for (size_t i = 0; i < acts_.size(); i++) doAct(acts_[i]); }
+};
 
-struct St { int kind; int loc; void* val; };      // 0 set 1 write 2 FAIL 3 longjmp-style fail 4 throw int 5 throw std::exception
-struct Script { St* s[3]; int n[3]; };
-static Script gScript;
+static void addObj(TestPlugin* p, unsigned long long name)
+{
+    if (p) gIds[p] = (int)gObjs.size();
+    gObjs.push_back(p); gNames.push_back(name);
+}
+static void doAct(const Act& a)
+{
+    switch (a.kind) {
+    case 0: {
+        int id = (int)gObjs.size();
+        gNamed.insert(id);
+        TestPlugin* p = a.arg ? (TestPlugin*)new RecSetPointerPlugin(pname(a.name).c_str(), id) : (TestPlugin*)new RecPlugin(pname(a.name).c_str(), id);
+        addObj(p, a.name);
+        gReg->installPlugin(p);
+        break; }
+    case 1:
+        for (size_t i = 0; i < gNames.size(); i++) if (gNames[i] == a.name) gNamed.insert((int)i);
+        gReg->removePluginByName(pname(a.name).c_str());
+        break;
+    case 2: case 3:
+        gNamed.insert(a.arg);
+        if (a.arg >= 0 && (size_t)a.arg < gObjs.size() && gObjs[(size_t)a.arg]) { if (a.kind == 2) gObjs[(size_t)a.arg]->enable(); else gObjs[(size_t)a.arg]->disable(); }
+        break;
+    default:
+        for (size_t i = 0; i < gNames.size(); i++) gNamed.insert((int)i);
+        gReg->resetPlugins();
+    }
+}
+static std::string chainItem(bool withoutRunnerName)
+{
+    std::vector<int> c; int guard = 0;
+    for (TestPlugin* p = gReg->getFirstPlugin(); p && p != NullTestPlugin::instance() && guard < 1000; p = p->getNext(), guard++) {
+        int id = gIds.count(p) ? gIds[p] : 0xffff;                 // 0xffff: not an object of this session (never a plugin id)
+        if (withoutRunnerName && id != 0xffff && gNames[(size_t)id] == RUNNER_NAME) continue;
+        c.push_back(id);
+    }
+    std::string s = ":c " + hx(c.size());
+    for (size_t i = 0; i < c.size(); i++) s += " " + hx((unsigned)c[i]);
+    return s;
+}
+
+// ------------------------------------------------------------------ scripted tests
+struct St { int kind; int loc; void* val; Act act; };   // 0 set 1 write 2 FAIL 3 longjmp-style fail 4 throw int 5 throw std::exception 6 action
+struct Script { std::vector<St> ph[3]; };
+static const Script* gScript;
 
 // no objects with destructors in these frames: kind 3 leaves them by longjmp
 static void interp(int phase)
 {
-    const St* v = gScript.s[phase]; int n = gScript.n[phase];
+    const std::vector<St>& vec = gScript->ph[phase];
+    const St* v = vec.empty() ? 0 : &vec[0]; int n = (int)vec.size();
     for (int i = 0; i < n; i++) {
         switch (v[i].kind) {
         case 0: UT_PTR_SET(pool[v[i].loc], v[i].val); break;
@@ -53,7 +128,8 @@ static void interp(int phase)
         case 2: FAIL("scripted failure"); break;
         case 3: UtestShell::getCurrent()->fail("scripted C failure", __FILE__, __LINE__, UtestShell::getCurrentTestTerminatorWithoutExceptions()); break;
         case 4: throw 42;
-        default: throw std::runtime_error("scripted exception");
+        case 5: throw std::runtime_error("scripted exception");
+        default: doAct(v[i].act);
         }
     }
 }
@@ -64,19 +140,70 @@ public:
     void testBody() CPPUTEST_OVERRIDE { interp(1); }
     void teardown() CPPUTEST_OVERRIDE { interp(2); }
 };
+static int gRunnerId = -1;                                          // id waiting for the runner's plugin object
 class ScriptedShell : public UtestShell
 {
 public:
+    Script script_;
     ScriptedShell() : UtestShell("G", "T", "script.cpp", 1) {}
     Utest* createTest() CPPUTEST_OVERRIDE { logEv(2, 0); return new ScriptedUtest; }
     void destroyTest(Utest* t) CPPUTEST_OVERRIDE { logEv(3, 0); delete t; }
+    // the registry hands every test the head of the chain here; the observation of one test is taken around the call
+    void runOneTest(TestPlugin* plugin, TestResult& result) CPPUTEST_OVERRIDE
+    {
+        if (gRunnerId >= 0 && gObjs[(size_t)gRunnerId] == 0 && plugin && !gIds.count(plugin) && plugin != NullTestPlugin::instance()
+            && plugin->getName() == DEF_PLUGIN_SET_POINTER) {
+            gObjs[(size_t)gRunnerId] = plugin; gIds[plugin] = gRunnerId;     // the runner's own plugin: on top at the first test
+        }
+        gNamed.clear();
+        int ev0 = gLogN; size_t f0 = result.getFailureCount();
+        gScript = &script_;
+        UtestShell::runOneTest(plugin, result);
+        // pre actions must all lie before the creation of the test object, post actions after its destruction
+        std::vector<int> pre, post; int stage = 0; bool shape = true;
+        for (int i = ev0; i < gLogN; i++) {
+            const Ev& e = gLog[i];
+            if (e.kind == 0) { if (stage != 0) shape = false; pre.push_back(e.id); }
+            else if (e.kind == 2) { if (stage != 0) shape = false; stage = 1; }
+            else if (e.kind == 3) { if (stage != 1) shape = false; stage = 2; }
+            else { if (stage != 2) shape = false; post.push_back(e.id); }
+        }
+        if (stage != 2) shape = false;
+        std::vector<int> pre2, post2;
+        for (size_t i = 0; i < pre.size(); i++) if (!gNamed.count(pre[i])) pre2.push_back(pre[i]);
+        for (size_t i = 0; i < post.size(); i++) if (!gNamed.count(post[i])) post2.push_back(post[i]);
+        if (!shape) pre2.push_back(0xffff);      // never a plugin id: the oracle rejects the observation
+        std::string s = std::string(":t ") + (result.getFailureCount() > f0 ? "1" : "0") + " " + hx(pre2.size());
+        for (size_t i = 0; i < pre2.size(); i++) s += " " + hx((unsigned)pre2[i]);
+        s += " " + hx(post2.size());
+        for (size_t i = 0; i < post2.size(); i++) s += " " + hx((unsigned)post2[i]);
+        for (int i = 0; i < POOL; i++) s += " " + hx((unsigned long long)(uintptr_t)pool[i]);
+        gItems.push_back(s);
+    }
 };
 
-static std::string pname(unsigned long long n) { return "p" + hx(n); }
+class QuietRunner : public CommandLineTestRunner
+{
+public:
+    QuietRunner(int ac, const char* const* av, TestRegistry* r) : CommandLineTestRunner(ac, av, r) {}
+protected:
+    TestOutput* createConsoleOutput() CPPUTEST_OVERRIDE { return new StringBufferTestOutput; }
+};
 
+static Act parseAct(const std::string& k, Toks& t)
+{
+    Act a; a.kind = 4; a.name = 0; a.arg = 0;
+    if (k == "ai") { a.kind = 0; a.name = t.u(); a.arg = t.n(); }
+    else if (k == "ar") { a.kind = 1; a.name = t.u(); }
+    else if (k == "ae" || k == "ad") { a.kind = k == "ae" ? 2 : 3; unsigned long long id = t.u(); a.arg = id > 0x7fffffffULL ? 0x7fffffff : (int)id; }
+    else if (k == "az") a.kind = 4;
+    else { fprintf(stderr, "harness: bad action %s\n", k.c_str()); exit(3); }
+    return a;
+}
+static bool gThrows;
 static St parseStmt(Toks& t)
 {
-    St s; s.kind = 2; s.loc = 0; s.val = 0;
+    St s; s.kind = 2; s.loc = 0; s.val = 0; s.act.kind = 4; s.act.name = 0; s.act.arg = 0;
     std::string k = t.sym();
     if (k == "set" || k == "wr") {
         s.kind = k == "set" ? 0 : 1; s.loc = t.n(); s.val = (void*)(uintptr_t)t.u();
@@ -84,10 +211,14 @@ static St parseStmt(Toks& t)
     }
     else if (k == "fail") s.kind = 2;
     else if (k == "failc") s.kind = 3;
-    else if (k == "thr") s.kind = 4;
-    else if (k == "thrstd") s.kind = 5;
-    else { fprintf(stderr, "harness: bad statement %s\n", k.c_str()); exit(3); }
+    else if (k == "thr") { s.kind = 4; gThrows = true; }
+    else if (k == "thrstd") { s.kind = 5; gThrows = true; }
+    else { s.kind = 6; s.act = parseAct(k, t); }
     return s;
+}
+static void parseTest(Toks& t, Script& sc)
+{
+    for (int p = 0; p < 3; p++) { int n = t.n(); for (int i = 0; i < n; i++) sc.ph[p].push_back(parseStmt(t)); }
 }
 
 int main()
@@ -99,58 +230,66 @@ int main()
         TestRegistry reg;
         TestRegistry* savedReg = TestRegistry::getCurrentRegistry();
         reg.setCurrentRegistry(&reg);
-        std::vector<TestPlugin*> objs; std::map<TestPlugin*, int> ids;
+        gReg = &reg; gObjs.clear(); gNames.clear(); gIds.clear(); gNamed.clear(); gRunnerId = -1;
+        std::vector<std::string> out;
         while (!t.end()) {
             std::string k = t.sym();
-            if (k == "inst") {
-                unsigned long long name = t.u(); int kind = t.n(); int id = (int)objs.size();
-                TestPlugin* p = kind ? (TestPlugin*)new RecSetPointerPlugin(pname(name).c_str(), id) : (TestPlugin*)new RecPlugin(pname(name).c_str(), id);
-                objs.push_back(p); ids[p] = id;
+            if (k == "inst") { Act a; a.kind = 0; a.name = t.u(); a.arg = t.n(); doAct(a); }
+            else if (k == "act") {
+                unsigned long long name = t.u(); bool post = t.n() != 0; int n = t.n();
+                std::vector<Act> acts;
+                for (int i = 0; i < n; i++) { std::string ak = t.sym(); acts.push_back(parseAct(ak, t)); }
+                TestPlugin* p = new ActorPlugin(pname(name).c_str(), (int)gObjs.size(), post, acts);
+                addObj(p, name);
                 reg.installPlugin(p);
             }
-            else if (k == "en") { size_t id = (size_t)t.u(); if (id < objs.size()) objs[id]->enable(); }
-            else if (k == "dis") { size_t id = (size_t)t.u(); if (id < objs.size()) objs[id]->disable(); }
+            else if (k == "en" || k == "dis") { Act a; a.name = 0; a.kind = k == "en" ? 2 : 3; unsigned long long id = t.u(); a.arg = id > 0x7fffffffULL ? 0x7fffffff : (int)id; doAct(a); }
             else if (k == "rm" || k == "reset") {
-                if (k == "rm") reg.removePluginByName(pname(t.u()).c_str()); else reg.resetPlugins();
-                std::vector<int> c; int guard = 0;
-                for (TestPlugin* p = reg.getFirstPlugin(); p && p != NullTestPlugin::instance() && guard < 1000; p = p->getNext(), guard++)
-                    c.push_back(ids.count(p) ? ids[p] : 0xffff);
-                o << ":c" << hx(c.size());
-                for (size_t i = 0; i < c.size(); i++) o << hx((unsigned)c[i]);
+                Act a; a.arg = 0; a.name = 0;
+                if (k == "rm") { a.kind = 1; a.name = t.u(); } else a.kind = 4;
+                doAct(a);
+                out.push_back(chainItem(false));
             }
-            else if (k == "test") {
-                std::vector<St> ph[3];
-                for (int p = 0; p < 3; p++) { int n = t.n(); for (int i = 0; i < n; i++) ph[p].push_back(parseStmt(t)); }
-                for (int p = 0; p < 3; p++) { gScript.s[p] = ph[p].empty() ? 0 : &ph[p][0]; gScript.n[p] = (int)ph[p].size(); }
-                gLogN = 0;
-                ScriptedShell shell;
-                StringBufferTestOutput out;
-                TestResult result(out);
-                reg.addTest(&shell);
-                reg.runAllTests(result);
-                reg.unDoLastAddTest();
-                // pre actions must all lie before the creation of the test object, post actions after its destruction
-                std::vector<int> pre, post; int stage = 0; bool shape = true;
-                for (int i = 0; i < gLogN; i++) {
-                    const Ev& e = gLog[i];
-                    if (e.kind == 0) { if (stage != 0) shape = false; pre.push_back(e.id); }
-                    else if (e.kind == 2) { if (stage != 0) shape = false; stage = 1; }
-                    else if (e.kind == 3) { if (stage != 1) shape = false; stage = 2; }
-                    else { if (stage != 2) shape = false; post.push_back(e.id); }
+            else if (k == "test" || k == "run" || k == "runner") {
+                int rep = k == "runner" ? t.n() : 1;
+                int ntests = k == "test" ? 1 : t.n();
+                gThrows = false;
+                std::vector<ScriptedShell*> shells;
+                for (int i = 0; i < ntests; i++) { shells.push_back(new ScriptedShell); parseTest(t, shells.back()->script_); }
+                for (int i = ntests - 1; i >= 0; i--) reg.addTest(shells[(size_t)i]);      // addTest prepends
+                gLogN = 0; gItems.clear();
+                if (k == "runner") {
+                    // the runner's pointer plugin is the next plugin object created: it takes an id
+                    gRunnerId = (int)gObjs.size(); addObj(0, RUNNER_NAME);
+                    std::vector<std::string> args; args.push_back("harness");
+                    if (gThrows) args.push_back("-e");            // the runner's default is to rethrow what a test throws, which ends the process
+                    if (rep != 1) args.push_back("-r" + std::to_string(rep));
+                    std::vector<const char*> av; for (size_t i = 0; i < args.size(); i++) av.push_back(args[i].c_str());
+                    {
+                        QuietRunner runner((int)av.size(), &av[0], &reg);
+                        runner.runAllTestsMain();
+                    }
+                    UtestShell::setRethrowExceptions(false);
+                    if (gObjs[(size_t)gRunnerId]) { gIds.erase(gObjs[(size_t)gRunnerId]); gObjs[(size_t)gRunnerId] = 0; }   // that object is gone
+                    gRunnerId = -1;
                 }
-                if (stage != 2) shape = false;
-                if (!shape) pre.push_back(0xffff);      // never a plugin id: the oracle rejects the observation
-                o << ":t" << (result.getFailureCount() ? "1" : "0") << hx(pre.size());
-                for (size_t i = 0; i < pre.size(); i++) o << hx((unsigned)pre[i]);
-                o << hx(post.size());
-                for (size_t i = 0; i < post.size(); i++) o << hx((unsigned)post[i]);
-                for (int i = 0; i < POOL; i++) o << hx((unsigned long long)(uintptr_t)pool[i]);
+                else {
+                    StringBufferTestOutput sink;
+                    TestResult result(sink);
+                    reg.runAllTests(result);
+                }
+                for (int i = 0; i < ntests; i++) reg.unDoLastAddTest();
+                for (size_t i = 0; i < gItems.size(); i++) out.push_back(gItems[i]);
+                if (k != "test") out.push_back(chainItem(k == "runner"));
+                for (int i = 0; i < ntests; i++) delete shells[(size_t)i];
             }
             else { fprintf(stderr, "harness: bad op %s\n", k.c_str()); exit(3); }
         }
         reg.setCurrentRegistry(savedReg);
-        for (size_t i = 0; i < objs.size(); i++) delete objs[i];
-        if (o.s.empty()) o << ":none";
+        for (size_t i = 0; i < gObjs.size(); i++) delete gObjs[i];
+        gReg = 0;
+        if (out.empty()) o << ":none";
+        for (size_t i = 0; i < out.size(); i++) o << out[i];
         o.flush();
     }
     return 0;
